@@ -243,6 +243,30 @@ pub fn special_stream(r: &mut Rng, sh: bool) -> Vec<u8> {
     data.extend(small(r));
     data
 }
+/// streams made of the hostile pieces the slice parsers are tried with (C03): whatever the parser does with a piece, the reader that
+/// hands it over must not panic; plus a piece without leading pattern that carries the pattern within its last 15 bytes
+pub fn hostile_stream(r: &mut Rng, sh: bool) -> Vec<u8> {
+    let mut data = vec![];
+    let pieces: Vec<Vec<u8>> = slice::hostile_inputs(r, 24).into_iter().filter(|(b, s)| *s == sh && b.len() < 70000 && !b.is_empty()).map(|(b, _)| b).collect();
+    let np = 1 + r.below(4) as usize;
+    for _ in 0..np {
+        if r.one_in(5) && sh {
+            // 16 bytes that are no storage header, a header declaring the rest, a payload that ends with the pattern and 0..11 bytes
+            let k = r.below(12) as usize;
+            let body = 6 + 4 + k;
+            data.extend(b"XLT\x01\0\0\0\0\0\0\0\0ECU\0");
+            data.extend([0x20u8, 3, ((4 + body) >> 8) as u8, (4 + body) as u8]);
+            data.extend(r.bytes(6));
+            data.extend(b"DLT\x01");
+            data.extend(r.bytes(k));
+        } else if !pieces.is_empty() {
+            let p = &pieces[r.below(pieces.len() as u64) as usize];
+            if data.len() + p.len() < 150000 { data.extend(p); }
+        }
+        if r.coin() { data.extend(gen::ser(&gen::message(r, &MsgOpts { storage: Some(sh), big: 8, max_args: 2 }))); }
+    }
+    data
+}
 pub fn random_stream(r: &mut Rng, sh: bool) -> Vec<u8> {
     let mut data = vec![];
     for _ in 0..r.below(4) {
@@ -292,7 +316,7 @@ pub fn record(mode: &str, seed: u64, n: usize, out: &mut Out) {
         "blocking" | "async" => {
             for i in 0..n {
                 let sh = r.coin();
-                let data = if i % 40 == 13 { special_stream(&mut r, sh) } else { random_stream(&mut r, sh) };
+                let data = if i % 40 == 13 { special_stream(&mut r, sh) } else if i % 8 == 5 { hostile_stream(&mut r, sh) } else { random_stream(&mut r, sh) };
                 let sched = random_sched(&mut r);
                 let cfg = if i % 3 == 0 { Some(slice::random_filter(&mut r, None)) } else { None };
                 // the largest message any header position of this stream could declare: small capacities are only legitimate above it
@@ -304,6 +328,18 @@ pub fn record(mode: &str, seed: u64, n: usize, out: &mut Out) {
                 let e = reader_event(&data, sh, &sched, mode == "async", cap, cfg.as_ref());
                 let nsrc = e["log"].as_array().unwrap().iter().filter(|x| x["t"] == "src").count();
                 out.emit(e, nsrc >= 2);
+            }
+            // every hostile piece of one base message as the head of its own stream (a session ends at the first error, so a piece
+            // further back would never reach the parser), read in one go and byte by byte
+            for _ in 0..(n / 50).max(1) {
+                for (piece, psh) in slice::hostile_inputs(&mut r, 24) {
+                    if piece.is_empty() || piece.len() > 2000 { continue; }
+                    let mut data = piece.clone();
+                    data.extend(gen::ser(&gen::message(&mut r, &MsgOpts { storage: Some(psh), big: 4, max_args: 1 })));
+                    let sched = if r.coin() { vec![Resp::Bytes(usize::MAX)] } else { vec![Resp::Bytes(1)] };
+                    out.calls += 3;
+                    out.emit(reader_event(&data, psh, &sched, mode == "async", None, None), true);
+                }
             }
             // systematic families on one small stream: all-1-byte, every 2- and 3-partition, interruption before every read
             let sh = r.coin();
@@ -325,7 +361,7 @@ pub fn record(mode: &str, seed: u64, n: usize, out: &mut Out) {
         "pair" => {
             for i in 0..n {
                 let sh = r.coin();
-                let data = if i % 40 == 13 { special_stream(&mut r, sh) } else { random_stream(&mut r, sh) };
+                let data = if i % 40 == 13 { special_stream(&mut r, sh) } else if i % 8 == 5 { hostile_stream(&mut r, sh) } else { random_stream(&mut r, sh) };
                 let sched = random_sched(&mut r);
                 out.calls += 4;
                 out.emit(pair_event(&data, sh, &sched), data.len() > 8);
